@@ -409,6 +409,11 @@ func runC08(r *ev.Run) {
 					// usually across two parts of the store
 					d.Vec = cloneF32(m.live[live[rng.IntN(len(live))]].Vec)
 					r.Count("ops:add-with-the-vector-of-another-document", 1)
+				} else if p.VecKind == "flat" && p.Metric != comet.Cosine && len(d.Vec) > 0 && rng.IntN(12) == 0 {
+					// a legal, finite vector so far out that its squared distance to every query overflows float32: it is
+					// reported at distance +Inf, and it is an acknowledged document like any other
+					d.Vec[rng.IntN(len(d.Vec))] = float32(1+rng.IntN(5)) * 1e20 * float32(1-2*rng.IntN(2))
+					r.Count("ops:add-outlier-at-infinite-distance", 1)
 				}
 				before := s.VerifMemtableCount()
 				var err error
